@@ -59,6 +59,17 @@ theorem scatter_getElem?_of_mem (xs : List K) (is : List Nat) (vs : List K) (hnd
         rw [scatter_cons]
         exact ih (xs.set i v) vs hnd.2 (by simpa using hlen) k (by simpa using hk) (by simpa using hb)
 
+
+theorem scatter_append (xs : List K) (is1 is2 : List Nat) (vs1 vs2 : List K) (h : is1.length = vs1.length) :
+    scatter xs (is1 ++ is2) (vs1 ++ vs2) = scatter (scatter xs is1 vs1) is2 vs2 := by
+  induction is1 generalizing xs vs1 with
+  | nil =>
+    have : vs1 = [] := List.eq_nil_of_length_eq_zero (by simpa using h.symm)
+    subst this; simp
+  | cons i is ih => cases vs1 with
+    | nil => simp at h
+    | cons v vs => simp only [List.cons_append, scatter_cons]; exact ih _ _ (by simpa using h)
+
 variable [OfNat K 0]
 
 @[simp] theorem scatterZero_nil (xs : List K) : scatterZero xs [] = xs := rfl
@@ -161,6 +172,68 @@ theorem collect_lt (sel : Method → Bool) (es : List (Nat × Nat × Method)) (N
 
 theorem length_slotsIf (sel : Bool) (start n : Nat) : (slotsIf sel start n).length = if sel then n else 0 := by
   unfold slotsIf; cases sel <;> simp
+
+theorem mem_collect_of_mem {sel : Method → Bool} {es : List (Nat × Nat × Method)} {e : Nat × Nat × Method}
+    (he : e ∈ es) (hs : sel e.2.2 = true) {x : Nat} (h1 : e.1 ≤ x) (h2 : x < e.1 + e.2.1) : x ∈ collect sel es := by
+  induction es with
+  | nil => simp at he
+  | cons e0 es ih =>
+    obtain ⟨start, n, m⟩ := e0
+    simp only [collect, List.mem_append]
+    rcases List.mem_cons.mp he with rfl | he'
+    · exact Or.inl (mem_slotsIf.mpr ⟨hs, h1, h2⟩)
+    · exact Or.inr (ih he')
+
+/-- **the scatter of the walk's pool into the walk's index list puts every mobilizer's values on that mobilizer's own
+slots**: `L` is the list of mobilizers, `fe` gives (first slot, slot count, method), `fv` the values it delivers. -/
+theorem scatter_collect_map {K α : Type} (L : List α) (fe : α → Nat × Nat × Method) (fv : α → List K)
+    (sel : Method → Bool) (xs : List K) (hA : Alloc (L.map fe))
+    (hlen : ∀ a ∈ L, (fv a).length = (fe a).2.1) (hb : ∀ a ∈ L, (fe a).1 + (fe a).2.1 ≤ xs.length) :
+    ∀ a ∈ L, sel (fe a).2.2 = true → ∀ j, j < (fe a).2.1 →
+      (scatter xs (collect sel (L.map fe)) (collectVals sel (L.map (fun a => ((fe a).2.2, fv a)))))[(fe a).1 + j]?
+        = (fv a)[j]? := by
+  induction L generalizing xs with
+  | nil => intro a ha; simp at ha
+  | cons a0 L ih =>
+    intro a ha hsel j hj
+    unfold Alloc at hA
+    simp only [List.map_cons, List.pairwise_cons] at hA
+    have hA' : Alloc (L.map fe) := hA.2
+    have hlen' : ∀ a ∈ L, (fv a).length = (fe a).2.1 := fun a h => hlen a (List.mem_cons_of_mem _ h)
+    simp only [List.map_cons, collect, collectVals]
+    by_cases h0 : sel (fe a0).2.2 = true
+    · have hl : (slotsIf (sel (fe a0).2.2) (fe a0).1 (fe a0).2.1).length = (if sel (fe a0).2.2 = true then fv a0 else []).length := by
+        simp [h0, length_slotsIf, hlen a0 (by simp)]
+      rw [scatter_append _ _ _ _ _ hl]
+      have hb' : ∀ a ∈ L, (fe a).1 + (fe a).2.1 ≤ (scatter xs (slotsIf (sel (fe a0).2.2) (fe a0).1 (fe a0).2.1)
+          (if sel (fe a0).2.2 = true then fv a0 else [])).length := by
+        intro a h; rw [scatter_length]; exact hb a (List.mem_cons_of_mem _ h)
+      rcases List.mem_cons.mp ha with rfl | ha'
+      · -- the head's own slots are not touched by the rest of the walk
+        have hnot : (fe a).1 + j ∉ collect sel (L.map fe) := by
+          intro hmem
+          obtain ⟨e, he, _, hlo, _⟩ := mem_collect hmem
+          have := hA.1 e he
+          omega
+        rw [scatter_getElem?_of_not_mem _ _ _ _ hnot]
+        simp only [h0, if_true, slotsIf]
+        have hk : j < (List.range' (fe a).1 (fe a).2.1).length := by simpa using hj
+        have hlen0 : (List.range' (fe a).1 (fe a).2.1).length = (fv a).length := by
+          simp [hlen a (by simp)]
+        have hidx : (List.range' (fe a).1 (fe a).2.1)[j] = (fe a).1 + j := by simp
+        have hbb : (List.range' (fe a).1 (fe a).2.1)[j] < xs.length := by
+          rw [hidx]; have := hb a (by simp); omega
+        have := scatter_getElem?_of_mem xs (List.range' (fe a).1 (fe a).2.1) (fv a) (by simp [List.nodup_range']) hlen0 j hk hbb
+        rw [hidx] at this
+        rw [this]
+        have hj' : j < (fv a).length := by rw [hlen a (by simp)]; exact hj
+        simp [hj']
+      · exact ih _ hA' hlen' hb' a ha' hsel j hj
+    · have h0f : sel (fe a0).2.2 = false := by simpa using h0
+      simp only [h0f, slotsIf, Bool.false_eq_true, if_false, List.nil_append]
+      rcases List.mem_cons.mp ha with rfl | ha'
+      · rw [h0f] at hsel; simp at hsel
+      · exact ih xs hA' hlen' (fun a h => hb a (List.mem_cons_of_mem _ h)) a ha' hsel j hj
 theorem sel_pres_zero (m : Method) : ¬ (isPres m = true ∧ isZero m = true) := by cases m <;> simp [isPres, isZero]
 theorem sel_pres_free (m : Method) : ¬ (isPres m = true ∧ isFree m = true) := by cases m <;> simp [isPres, isFree]
 theorem sel_zero_free (m : Method) : ¬ (isZero m = true ∧ isFree m = true) := by cases m <;> simp [isZero, isFree]
@@ -182,6 +255,65 @@ theorem collect_length_eq_vals {K : Type} (sel : Method → Bool) (es : List (Na
     cases sel m <;> simp [hl]
 
 end alloc
+
+/-! ## the common body of `prescribeQ`, `prescribeU` and the known-udot scatter, over a walk of mobilizers -/
+section walk
+variable {K α : Type} [OfNat K 0]
+
+/-- scatter the walk's prescribed pool, then zero the walk's known-zero slots -/
+def walkScatter (xs : List K) (L : List α) (fe : α → Nat × Nat × Method) (fv : α → List K) : List K :=
+  scatterZero (scatter xs (collect isPres (L.map fe)) (collectVals isPres (L.map (fun a => ((fe a).2.2, fv a)))))
+    (collect isZero (L.map fe))
+
+theorem isPres_iff (m : Method) : isPres m = true ↔ m = .prescribed := by cases m <;> simp [isPres]
+theorem isZero_iff (m : Method) : isZero m = true ↔ m = .zero := by cases m <;> simp [isZero]
+theorem not_pres_and_zero (m : Method) : ¬ (isPres m = true ∧ isZero m = true) := by cases m <;> simp [isPres, isZero]
+
+theorem walk_length (xs : List K) (L : List α) (fe : α → Nat × Nat × Method) (fv : α → List K) :
+    (walkScatter xs L fe fv).length = xs.length := by simp [walkScatter]
+
+/-- a mobilizer whose method is Prescribed finds exactly its own values on its own slots -/
+theorem walk_pres (xs : List K) (L : List α) (fe : α → Nat × Nat × Method) (fv : α → List K)
+    (hA : Alloc (L.map fe)) (hlen : ∀ a ∈ L, (fv a).length = (fe a).2.1)
+    (hb : ∀ a ∈ L, (fe a).1 + (fe a).2.1 ≤ xs.length)
+    (a : α) (ha : a ∈ L) (hm : (fe a).2.2 = .prescribed) (j : Nat) (hj : j < (fe a).2.1) :
+    (walkScatter xs L fe fv)[(fe a).1 + j]? = (fv a)[j]? := by
+  have hp : isPres (fe a).2.2 = true := (isPres_iff _).mpr hm
+  have hin : (fe a).1 + j ∈ collect isPres (L.map fe) :=
+    mem_collect_of_mem (List.mem_map_of_mem ha) hp (Nat.le_add_right _ _) (by omega)
+  have hnz := collect_disjoint isPres isZero not_pres_and_zero (L.map fe) hA _ hin
+  unfold walkScatter
+  rw [scatterZero_getElem?_of_not_mem _ _ _ hnz]
+  exact scatter_collect_map L fe fv isPres xs hA hlen hb a ha hp j hj
+
+/-- a mobilizer whose method is Zero finds 0 on its slots -/
+theorem walk_zero (xs : List K) (L : List α) (fe : α → Nat × Nat × Method) (fv : α → List K)
+    (hb : ∀ a ∈ L, (fe a).1 + (fe a).2.1 ≤ xs.length)
+    (a : α) (ha : a ∈ L) (hm : (fe a).2.2 = .zero) (j : Nat) (hj : j < (fe a).2.1) :
+    (walkScatter xs L fe fv)[(fe a).1 + j]? = some 0 := by
+  have hz : isZero (fe a).2.2 = true := (isZero_iff _).mpr hm
+  have hin : (fe a).1 + j ∈ collect isZero (L.map fe) :=
+    mem_collect_of_mem (List.mem_map_of_mem ha) hz (Nat.le_add_right _ _) (by omega)
+  unfold walkScatter
+  exact scatterZero_getElem?_of_mem _ _ _ hin (by rw [scatter_length]; have := hb a ha; omega)
+
+/-- every slot that does not belong to a Prescribed or Zero mobilizer is left untouched -/
+theorem walk_other (xs : List K) (L : List α) (fe : α → Nat × Nat × Method) (fv : α → List K) (x : Nat)
+    (hx : ∀ a ∈ L, ((fe a).2.2 = .prescribed ∨ (fe a).2.2 = .zero) → ¬ ((fe a).1 ≤ x ∧ x < (fe a).1 + (fe a).2.1)) :
+    (walkScatter xs L fe fv)[x]? = xs[x]? := by
+  have h1 : x ∉ collect isPres (L.map fe) := by
+    intro h
+    obtain ⟨e, he, hs, hlo, hhi⟩ := mem_collect h
+    obtain ⟨a, ha, rfl⟩ := List.mem_map.mp he
+    exact hx a ha (Or.inl ((isPres_iff _).mp hs)) ⟨hlo, hhi⟩
+  have h2 : x ∉ collect isZero (L.map fe) := by
+    intro h
+    obtain ⟨e, he, hs, hlo, hhi⟩ := mem_collect h
+    obtain ⟨a, ha, rfl⟩ := List.mem_map.mp he
+    exact hx a ha (Or.inr ((isZero_iff _).mp hs)) ⟨hlo, hhi⟩
+  unfold walkScatter
+  rw [scatterZero_getElem?_of_not_mem _ _ _ h2, scatter_getElem?_of_not_mem _ _ _ _ h1]
+end walk
 
 /-! ## dual numbers -/
 section jets
